@@ -5,7 +5,7 @@ from .. import common, gen, cli, modelio, pipefam, oracle, cachefam
 
 RULE = ("each generated annotation pair is renamed by injective maps drawn from pools (numeric-looking '1','2','10','007','7','1e3','1E3','0x1A',"
         "'-5','1.0'; names differing only in case; non-ASCII letters; long names (17-70 characters, UTF-8 length up to 3x the character count, pairs differing only in the last character); blanks, punctuation, quotes, '#', boolean-looking 'True'/'false'; prefixes "
-        "of one another) applied to chromosomes, genes, orders and superfamilies separately and together; the renamed pair is run through the real "
+        "of one another) applied to chromosomes, genes, orders and superfamilies separately and together (one plan with non-ASCII gene and group names runs under LC_ALL=C without UTF-8 mode); the renamed pair is run through the real "
         "command line twice in one directory (first run: revision in memory; second run: intermediates re-read) and compared (a) first run vs "
         "re-run: exit status, every label, every value; (b) renamed vs un-renamed run cell by cell through the inverse renaming; (c) stored gene "
         "names, chromosome id, order and superfamily names verbatim; (d) with the model evaluated on the renamed pair. non-trivial = the renaming "
@@ -60,7 +60,10 @@ def rename_case(case, maps):
     return c
 
 
-def two_runs(case):
+C_LOCALE = {"LC_ALL": "C", "LANG": "C", "PYTHONUTF8": "0", "PYTHONCOERCECLOCALE": "0"}
+
+
+def two_runs(case, env=None):
     """first run and identical re-run in one directory; returns (rep1, rep2)"""
     d = tempfile.mkdtemp(prefix="vh14_")
     try:
@@ -69,7 +72,7 @@ def two_runs(case):
         out = os.path.join(d, "out")
         reps = []
         for _ in range(2):
-            rc, log = cli.run_cli(d, g, t, c, out, genome="G", nproc=2)
+            rc, log = cli.run_cli(d, g, t, c, out, genome="G", nproc=2, env=env)
             files = cli.read_results(out) if os.path.isdir(out) else []
             reps.append({"rc": rc, "log": log[-1200:], "files": files, "ok": rc == 0,
                          "listing": sorted(fn for fn in os.listdir(out) if fn.endswith(".h5")) if os.path.isdir(out) else []})
@@ -152,18 +155,23 @@ def run(chk):
               ("punct", ("gene", "order", "superfam")), ("punct", ("chrom",)), ("wordy", ("chrom", "gene", "order", "superfam")),
               ("prefix", ("chrom", "gene")), ("prefix", ("order", "superfam")),
               ("long", ("chrom", "gene", "order", "superfam")), ("longutf", ("order", "superfam")),
-              ("longutf", ("chrom", "gene", "order", "superfam"))]
+              ("longutf", ("chrom", "gene", "order", "superfam")),
+              # non-ASCII gene and group names by a process whose locale is not UTF-8 (LC_ALL=C, no UTF-8 mode): identifiers are text in
+              # the files, whatever the terminal's encoding (chromosome names stay ASCII here: they are part of file names)
+              ("nonascii_C_locale", ("gene", "order", "superfam"))]
     cases = []
     for ci in range(ncases):
         case = gen.gen_pair(r, max_chrom=3, max_genes=3, max_tes=10, min_chrom=2)
         cases.append(case)
         sel = combos if not quick else [combos[(ci * 6 + k) % len(combos)] for k in range(6)]
+        if quick and ci == 0 and combos[-1] not in sel:
+            sel = sel + [combos[-1]]
         for pool, which in sel:
-            plans.append((ci, pool, which, make_maps(r, case, pool, which)))
+            plans.append((ci, pool, which, make_maps(r, case, pool.replace("_C_locale", ""), which)))
     with ThreadPoolExecutor(max_workers=12) as ex:
         base_reps = list(ex.map(lambda c: two_runs(c)[0], cases))
         ren_cases = [rename_case(cases[ci], maps) for ci, _p, _w, maps in plans]
-        ren_reps = list(ex.map(two_runs, ren_cases))
+        ren_reps = list(ex.map(lambda ce: two_runs(ce[0], ce[1]), [(rc_, C_LOCALE if pl[1].endswith("_C_locale") else None) for rc_, pl in zip(ren_cases, plans)]))
     try:
         models = modelio.eval_cases("c14", ren_cases)
         chk.oblige("model evaluation (vm_compute) of every renamed input", True)
@@ -199,7 +207,7 @@ def run(chk):
 def replay(chk, rp):
     case, maps = rp["case"], rp["maps"]
     base = two_runs(case)[0]
-    reps = two_runs(rename_case(case, maps))
+    reps = two_runs(rename_case(case, maps), C_LOCALE if str(rp.get("pool", "")).endswith("_C_locale") else None)
     fails = check_one(case, maps, base, reps)
     print(json.dumps({"failures": fails[:5], "exits": [base["rc"], reps[0]["rc"], reps[1]["rc"]]}, indent=1, default=str))
     return 1 if fails else 0
